@@ -281,7 +281,7 @@ def zoom_oracle(case, st, res, srcs):
     src_of = {}
     for base, so in zip(bases, srcs):      # several sources may share a bin size: a copy of any of them is accepted
         src_of.setdefault(base_res(base), []).append(so)
-    keys = ("bins", "pixels", "nnz", "sum", "chromsizes", "names", "binsize", "mode", "b1off", "choff", "bincols", "weight", "bintype")
+    keys = ("bins", "pixels", "nnz", "sum", "chromsizes", "names", "binsize", "mode", "b1off", "choff", "bincols", "weight", "bintype", "attrs", "matrix")
     for r in want:
         lv = res["levels"][f"/resolutions/{r}"]
         if r in bres:
@@ -308,12 +308,16 @@ def zoom_oracle(case, st, res, srcs):
                     cands.append(b)
                     if lv["bins"] == ebins and lv["pixels"] == epx and lv["sum"] == sum(p[2] for p in base["pixels"]) and lv["nnz"] == len(epx):
                         ok = True
+                        ok_exp = (ebins, epx, sum(p[2] for p in base["pixels"]))
                         break
             if not ok:
                 return {"what": f"level {r} is not the direct coarsening of any base it is a multiple of", "bases_tried": cands,
                         "pixels": lv["pixels"][:30], "bins": lv["bins"][:20]}
             if lv["mode"] != ("symmetric-upper" if case["symmetric"] else "square"):
                 return {"what": f"level {r} storage mode", "got": lv["mode"]}
+            sem = G.semantics_bad(lv, ok_exp[0], ok_exp[1], case["symmetric"], ok_exp[2])
+            if sem:
+                return dict(sem, level=r)
     return None
 
 
@@ -817,9 +821,47 @@ def sq_history(d):
     return None
 
 
+def sq_legacy_attrs(d):
+    """bases in legacy form (optional header attributes removed one at a time, format-version 2): every derived level
+    follows the reader's documented defaults (missing storage-mode = symmetric-upper) in its attributes AND reads;
+    the base level stays a copy of what was supplied"""
+    import cooler
+    blocks = fixed_blocks(Q_SIZES, 10)
+    sq_px = sorted(Q_PX + [[4, 1, 2], [7, 0, 5], [18, 13, 3]])
+    # ('format' is not removed here: a base without it is not a cooler for fileops.is_cooler, and the copied base level
+    #  would then not be listed -- reported to the lead as an observation on tests/data/hg19.GM12878-MboI.matrix.2000kb.cool)
+    plans = [(True, Q_PX, a_) for a_ in ("storage-mode", "bin-type", "sum", "nchroms", "format-version:2", "metadata")]
+    plans += [(False, sq_px, a_) for a_ in ("bin-type", "sum", "format-version:2")]
+    plans += [("tagged-square", Q_PX, "storage-mode")]      # upper-triangular data tagged square, tag removed -> symmetric-upper by default
+    for symm, px, attr in plans:
+        a, m = d / "lg.cool", d / "lg.mcool"
+        G.make_cooler(a, blocks, px, symm is True)
+        G.strip_attr(a, attr)
+        src = G.read_cooler(a)
+        cooler.zoomify_cooler(str(a), str(m), [40, 20], chunksize=3)
+        want_symm = symm is not False
+        bad = _q_listing_bad(f"legacy base without {attr}", m, [10, 20, 40])
+        if bad:
+            return bad
+        for r in (20, 40):
+            lv = G.read_cooler(f"{m}::resolutions/{r}")
+            eb, ep = G.oracle_coarsen(blocks, px, r // 10)
+            if lv["bins"] != eb or lv["pixels"] != ep:
+                return {"what": f"level {r} from a base without '{attr}'", "pixels": lv["pixels"][:20], "expected": ep[:20]}
+            sem = G.semantics_bad(lv, eb, ep, want_symm, sum(p[2] for p in px))
+            if sem:
+                return dict(sem, level=r, legacy=f"base without '{attr}'", data="symmetric" if want_symm else "square")
+        b0 = G.read_cooler(f"{m}::resolutions/10")
+        for k_ in ("bins", "pixels", "attrs", "matrix", "b1off", "choff"):
+            if b0[k_] != src[k_]:
+                return {"what": f"copied base level differs from the legacy source ({k_})", "got": str(b0[k_])[:200], "expected": str(src[k_])[:200]}
+    return None
+
+
 SCENARIOS = {"base URI into an mcool / re-run onto an existing file": sq_base_uri_and_rerun,
              "duplicate+unsorted resolutions / dtypes dict": sq_duplicates_and_dtypes,
              "CLI default output, -p, -c, -i": sq_cli_flags, "empty base cooler": sq_empty_base,
+             "legacy / optional header attributes removed from the base": sq_legacy_attrs,
              "history: same base URI and output path, base rewritten, argument objects reused (D34)": sq_history}
 
 
